@@ -229,6 +229,25 @@ def _callable(x) -> bool:
     return callable(x) or (isinstance(x, Stub) and hasattr(x, "_abs_call"))
 
 
+def _setattr(o, name, v):
+    if isinstance(o, Stub) and getattr(o, "_settable", False) and isinstance(name, str) and not name.startswith("__"):
+        setattr(o, name, v)
+        return None
+    raise Unsupported(f"setattr on {type(o).__name__}")
+
+
+def _hasattr(o, name):
+    if isinstance(o, (Stub,) + PURE_TYPES) and isinstance(name, str) and not name.startswith("__"):
+        try:
+            getattr(o, name)
+            return True
+        except (AttributeError, Unsupported):
+            return False
+    raise Unsupported(f"hasattr on {type(o).__name__}")
+
+
+BUILTINS["setattr"] = _setattr
+BUILTINS["hasattr"] = _hasattr
 BUILTINS["callable"] = _callable
 BUILTINS["divmod"] = divmod
 BUILTINS["map"] = map
